@@ -163,6 +163,26 @@ static int build_legacy_frame(unsigned seed, finfo* fi) {
     { int k = (int)(seed % (unsigned)nfr); memcpy(frame, COMPRESSED + starts[k], sizes[k]); frameSize = sizes[k]; }
     g_dict = NULL; g_dictSize = 0; memset(&F, 0, sizeof(F)); fi->family = "legacy"; fi->seed = seed; fi->nblocks = 0; fi->fcsBytes = -1; fi->singleSeg = -1; fi->checksum = -1; fi->wexp = 0; fi->wmant = 0; return 1;
 }
+/* legacy v0.7 frames assembled by hand: small windows, block headers announcing sizes around and beyond the window / the 128 KB
+ * limit, bodies that may be shorter than announced - what the streaming path of the legacy decoder has to bound itself */
+static int build_legacy7_frame(unsigned seed, finfo* fi) {
+    unsigned x = seed * 2654435761u + 21; size_t pos = 0; unsigned wl, nb, b; size_t window;
+#define RZ (x = x * 1103515245u + 12345u, (x >> 16) & 0x7fff)
+    frame[pos++] = 0x27; frame[pos++] = 0xB5; frame[pos++] = 0x2F; frame[pos++] = 0xFD;
+    wl = RZ % 8; window = (size_t)1 << (10 + wl);
+    frame[pos++] = 0x00;                              /* frame header descriptor: no content size, window byte follows, no checksum, no dictID */
+    frame[pos++] = (unsigned char)((wl << 3) | (RZ % 2 ? RZ % 8 : 0));
+    nb = 1 + RZ % 3;
+    for (b = 0; b < nb && pos + 8 < MAXF; b++) { unsigned type = RZ % 3; /* 0 compressed 1 raw 2 rle */ size_t sz, body;
+        static const long off[] = { -1, 0, 1, 2, 1000 }; unsigned pick = RZ % 6;
+        sz = pick == 0 ? window + (size_t)off[RZ % 5] : pick == 1 ? 131072 + (size_t)off[RZ % 5] : pick == 2 ? (window + RZ % (131072 - window + 1)) : pick == 3 ? 1 + RZ % (window < 4000 ? window : 4000) : pick == 4 ? 65536 : 0x7FFFF - RZ % 9;
+        if (sz > 0x7FFFF) sz = 0x7FFFF;
+        frame[pos++] = (unsigned char)((type << 6) | ((sz >> 16) & 7)); frame[pos++] = (unsigned char)(sz >> 8); frame[pos++] = (unsigned char)sz;
+        body = type == 2 ? 1 : (RZ % 3 == 0 ? sz : RZ % (sz + 1)); if (body > 300000) body = 300000; if (pos + body + 8 > MAXF) body = 0;
+        { size_t i; for (i = 0; i < body; i++) frame[pos + i] = (unsigned char)(RZ >> 3); } pos += body; }
+    frame[pos++] = 0xC0; frame[pos++] = 0; frame[pos++] = 0;      /* end-of-frame block */
+    frameSize = pos; g_dict = NULL; g_dictSize = 0; memset(&F, 0, sizeof(F)); fi->family = "legacy7"; fi->seed = seed; fi->nblocks = (int)nb; fi->fcsBytes = -1; fi->singleSeg = -1; fi->checksum = -1; fi->wexp = wl; fi->wmant = 0; return 1;
+}
 /* a few bytes of RLE blocks regenerating far more than the window: what a static streaming decoder must refuse or contain */
 static int build_rlebig_frame(unsigned seed, finfo* fi) {
     unsigned x = seed * 2654435761u + 11; unsigned wexp, wmant; size_t window, total, pos; unsigned char hdr[32]; size_t hs; int nb = 0;
@@ -332,7 +352,7 @@ int main(int argc, char** argv) {
                     if ((seed + i) % 3 == 0) { hold[asz] = 0x50 + ((seed + i) % 16); hold[asz + 1] = 0x2A; hold[asz + 2] = 0x4D; hold[asz + 3] = 0x18; hold[asz + 4] = 5; hold[asz + 5] = hold[asz + 6] = hold[asz + 7] = 0; memcpy(hold + asz + 8, "skip!", 5); asz += 13; }
                     ok = build_frame("headers", seed + 7777u + (unsigned)i, &fi) && g_dict == NULL && fi.checksum == 0 && asz + frameSize < MAXF;
                     if (ok) { memmove(frame + asz, frame, frameSize); memcpy(frame, hold, asz); frameSize += asz; fi.family = "concat"; fi.seed = seed + (unsigned)i; fi.checksum = 0; } } }
-            else ok = !strcmp(fam, "comp") ? build_comp_frame(seed + (unsigned)i, &fi) : !strcmp(fam, "legacy") ? build_legacy_frame(seed + (unsigned)i, &fi) : !strcmp(fam, "rlebig") ? build_rlebig_frame(seed + (unsigned)i, &fi) : build_frame(fam, seed + (unsigned)i, &fi);
+            else ok = !strcmp(fam, "comp") ? build_comp_frame(seed + (unsigned)i, &fi) : !strcmp(fam, "legacy") ? build_legacy_frame(seed + (unsigned)i, &fi) : !strcmp(fam, "legacy7") ? build_legacy7_frame(seed + (unsigned)i, &fi) : !strcmp(fam, "rlebig") ? build_rlebig_frame(seed + (unsigned)i, &fi) : build_frame(fam, seed + (unsigned)i, &fi);
             if (!ok) { fprintf(T, "{\"e\":\"frame\",\"family\":\"%s\",\"seed\":%u,\"idx\":%d,\"accepted\":false,\"why\":\"not assembled\",\"csize\":0}\n", fam, seed + (unsigned)i, i); continue; }
             g_ddict = g_dict ? ZSTD_createDDict(g_dict, g_dictSize) : NULL;
             if (!strcmp(cmd, "GEN")) do_frame(&fi, i); else if (!strcmp(cmd, "MUT")) do_mutations(&fi, i, nmut);
